@@ -18,7 +18,8 @@ FsRead == {"ReadDirRoot", "ReadDirSub", "Stat", "ReadFile", "ReadLink", "Label"}
 DkMut  == {"Partition", "WritePartitionContents", "CreateFilesystem"}
 DkRead == {"GetPartitionTable", "ReadPartitionContents", "GetFilesystemAndList"}
 FsObjs == {"fat12", "fat16", "fat32", "ext4", "iso", "squashfs"}
-DkObjs == {"gpt", "mbr"}
+\* gptbad: the primary GPT array fails its CRC, the backup is intact (reads must not "repair" it)
+DkObjs == {"gpt", "mbr", "gptbad"}
 Objs   == FsObjs \cup DkObjs
 Routes == {"robackend", "nowritable", "ropath", "rw"}
 \* a finalized image is read-only on every route, "rw" included
